@@ -79,6 +79,18 @@ def run_case(prop, case, spec, scratch, stats):
                 monitored_battery(sut, rng, stats, out)
                 if out:
                     break
+                if i == len(case["ops"]) and case["cfg"]["backend"] == "file" and sut.m.flags and rng.random() < 0.6:
+                    # the same state reopened with only part of its rules re-supplied (API misuse, but a
+                    # reachable state): queries may fail, they still must not write
+                    sut.t.close()
+                    keep = [a for a in sorted(sut.m.flags) if rng.random() < 0.5]
+                    from ..harness import Traph
+                    sut.t = Traph(folder=sut.folder, default_webentity_creation_rule=sut.m.default_pattern,
+                                  webentity_creation_rules={a: sut.m.rules[a].pattern for a in keep})
+                    stats["C14_batteries_after_reopen_with_fewer_rules"] += 1
+                    monitored_battery(sut, rng, stats, out)
+                    if out:
+                        break
             if i == len(case["ops"]):
                 break
             sut.apply(case["ops"][i])
